@@ -70,6 +70,13 @@ VALUES = {
     dict: [{'a': 'x'}, {'b': [1, {'c': None}]}],
     bytes: [b'a\n', SAMPLE_DIFF],
 }
+# values of the right type whose acceptance is not documented either way
+EDGE = {
+    str: ['', ' ', 'no such codec', 'UTF-8'],
+    int: [-1, -4, 10 ** 12],
+    dict: [{}, {1: 'non-string key'}],
+    bytes: [b''],
+}
 WRONG = {
     str: [5, b'utf-8', None, {'a': 1}, ['utf-8'], 2.5],
     int: ['4', None, 2.5, b'4', [4]],
@@ -105,6 +112,21 @@ def base_specs(tier):
                 'changes': [{'attrs': changes[1], 'files': [files[1],
                                                             files[2]]},
                             {'files': [files[0]]}]})
+    # trees reached by parsing (options arrive verbatim from headers)
+    from mc import spec as _spec
+    fa, _ = _spec.serialize([
+        ['preamble', 'top\n', None, 4, None, 'text/markdown'],
+        ['meta', {'k': ['v']}, None], ['change', 'latin-1'],
+        ['preamble', 'c1\r\n', None, 2, 'dos', None],
+        ['meta', {'id': 'abc'}, 'utf-16'], ['file', None],
+        ['meta', {'path': 'f'}, None],
+        ['diff', SAMPLE_DIFF, 'text', 'utf-8', 'unix'],
+        ['file', 'utf-16'], ['meta', {'path': 'g'}, None]], 'utf-8')
+    fb, _ = _spec.serialize([
+        ['change', None], ['file', None], ['meta', {'path': 'h'}, None],
+        ['diff', b'x\r\n', 'binary', None, None]], 'utf-16')
+    out.append({'parse': fa})
+    out.append({'parse': fb})
     if tier == 'thorough':
         for m in mains:
             for c1 in changes:
@@ -153,6 +175,11 @@ def check_assign(spec_, path, kind, name, value, valid):
         exc = e
     after = snap(tree)
     tag = '%s.%s' % (kind, name)
+    if valid is None:
+        # value of the declared type whose acceptance the documentation does
+        # not settle (negative indent, empty string, ...): either outcome is
+        # fine, but it must be one of the two, atomically
+        valid = exc is None
     if valid:
         if exc is not None:
             v.append(('valid-value-rejected:%s' % tag,
@@ -238,6 +265,9 @@ def candidates(typ, choices):
             out.append((x, True))
     for x in WRONG[typ]:
         out.append((x, False))
+    if not choices:
+        for x in EDGE[typ]:
+            out.append((x, None))
     return out
 
 
@@ -449,11 +479,8 @@ def check_unknown(sp, ctor, name):
             tree.changes[-1].add_file(**{name: 'x'})
         v.append(('unknown-attribute-accepted:%s:%s' % (ctor, name),
                   '%s(%s=...) accepted' % (ctor, name)))
-    except Exception as e:
-        from pydiffx.errors import BaseDiffXError
-        if not isinstance(e, BaseDiffXError):
-            v.append(('unknown-attribute-wrong-error:%s:%s' % (
-                ctor, type(e).__name__), repr(e)))
+    except Exception:
+        pass            # rejected (the statement does not fix the type)
     if freeze(snap(tree)) != freeze(before):
         v.append(('rejected-constructor-changed-tree:%s' % ctor,
                   '%s(%s=...) raised but the tree changed (a change/file was '
